@@ -2867,16 +2867,514 @@ def corr_robust(ctx, drv, n):
 
 
 
+# ------------------------------------------------------------------ user-placement entry points and their arguments
+CELL_KIND = {'simple': 'hex', '3sec': 'sec3', 'square': 'square'}
+COLORS = ['b', 'g', 'k', 'y', 'm', 'c']
+DEFAULT_COLOR = 'r'
+
+
+def cell_spec(ctype, R, rot, centre):
+    return {'kind': CELL_KIND[ctype], 'R': R, 'side': R, 'rot': rot, 'pos': c2(centre)}
+
+
+def as_form(vals, form):
+    """the same ids as int list / tuple / numpy array / range"""
+    if form == 'list':
+        return list(vals)
+    if form == 'tuple':
+        return tuple(vals)
+    if form == 'array':
+        return np.array(vals, dtype=int)
+    if form == 'range':
+        return range(vals[0], vals[-1] + 1)
+    raise ValueError(form)
+
+
+def placement_requests(case, n):
+    """the (cell id, number of users, colour, ratio) requests the documented call stands for"""
+    ids = case['ids']
+    if case['ids_form'] == 'none':
+        ids = list(range(1, n + 1))
+    elif case['ids_form'] == 'int':
+        ids = [ids]
+    k = len(ids)
+
+    def per_cell(v):
+        return list(v) if isinstance(v, list) else [v] * k
+
+    return list(zip(ids, per_cell(case['nums']), per_cell(case['colors']), per_cell(case['ratios'])))
+
+
+def placement_class(case, what):
+    forms = 'ids=%s:num=%s:color=%s:ratio=%s' % (
+        case.get('ids_form', '-'), 'list' if isinstance(case.get('nums'), list) else 'scalar',
+        'list' if isinstance(case.get('colors'), list) else ('none' if case.get('colors') is None else 'scalar'),
+        'list' if isinstance(case.get('ratios'), list) else 'scalar')
+    return 'placement:%s:%s:%s' % (case['entry'], what, forms)
+
+
+def check_user(cell_mod, us, cref, centre, radius, ratio, color, cell_id, sc):
+    """postcondition of ONE placed user; returns (what, detail) or None"""
+    p = complex(us.pos)
+    if boundary_dist(cref, p) > 1e-9 * sc and not winding_inside(cref, p):
+        return 'user-outside-cell', 'user at %r is %.3g outside its cell' % (p, boundary_dist(cref, p))
+    if abs(p - centre) < ratio * radius * (1 - 1e-12):
+        return 'min-dist-ignored', ('user at relative distance %.6g from the centre of cell %s, min_dist_ratio %.6g was requested'
+                                    % (abs(p - centre) / radius, cell_id, ratio))
+    want = DEFAULT_COLOR if color is None else color
+    if us.marker_color != want:
+        return 'colour', 'user of cell %s has marker colour %r, requested %r' % (cell_id, us.marker_color, want)
+    if us.cell_id != cell_id:
+        return 'cell-id', 'user placed in cell %s carries cell_id %r' % (cell_id, us.cell_id)
+    return None
+
+
+@contextlib.contextmanager
+def random_source(case):
+    """scripted draws (`draws`) or a seeded numpy generator (`npseed`); the global state is restored"""
+    if case.get('draws') is not None:
+        with scripted_random(case['draws']) as s_:
+            yield s_
+    else:
+        st = np.random.get_state()
+        np.random.seed(case['npseed'])
+        try:
+            yield None
+        finally:
+            np.random.set_state(st)
+
+
+def o_placement(case):
+    """every documented argument of every user-placement entry point has its documented effect: the users
+    are in the requested cells, as many as requested, inside their cell, not closer to its centre than the
+    requested min_dist_ratio, with the requested colour — for every form of the arguments — and placing
+    through the cluster is the same as placing directly in the cell"""
+    shapes, cell, _ = _mods()
+    w = quiet()
+    try:
+        return _o_placement(case, shapes, cell)
+    except StreamEnd:
+        return None
+    except Exception as e:
+        return placement_class(case, 'raises:' + type(e).__name__), repr(e)[:200]
+    finally:
+        w.__exit__(None, None, None)
+
+
+def _o_placement(case, shapes, cell):
+    entry = case['entry']
+    ctype, n, R, rot = case['type'], case['n'], case['R'], case['rot']
+    pos = cx(case['pos'])
+    sc = 6 * R + 1e-3 * abs(pos)
+
+    def cluster():
+        return cell.Cluster(cell_radius=R, num_cells=n, pos=pos, cell_type=ctype, rotation=rot)
+
+    def cls(what):
+        return placement_class(case, what)
+
+    if entry == 'Cluster.add_random_users':
+        cl, tw = cluster(), cluster()
+        reqs = placement_requests(case, n)
+        ids = None if case['ids_form'] == 'none' else (case['ids'] if case['ids_form'] == 'int' else as_form(case['ids'], case['ids_form']))
+        args = [ids, case['nums']]
+        # optional trailing arguments are left out when they have their default value (documented defaults)
+        if case['colors'] is not None or case['ratios'] != 0.0 or case.get('explicit_defaults'):
+            args.append(case['colors'])
+            if case['ratios'] != 0.0 or case.get('explicit_defaults'):
+                args.append(case['ratios'])
+        with random_source(case):
+            if case.get('keywords'):
+                cl.add_random_users(cell_ids=ids, num_users=case['nums'], user_color=case['colors'], min_dist_ratio=case['ratios'])
+            else:
+                cl.add_random_users(*args)
+        with random_source(case):          # the cell path: the cells themselves place the users, same draws
+            for cid, num, col, rat in reqs:
+                tw.get_cell_by_id(cid).add_random_users(num, col, rat)
+        # counts per cell
+        for c in cl:
+            want = sum(num for cid, num, _, _ in reqs if cid == c.id)
+            if c.num_users != want:
+                return cls('count'), 'cell %s has %d users, %d were requested' % (c.id, c.num_users, want)
+        if cl.num_users != sum(num for _, num, _, _ in reqs):
+            return cls('count'), 'the cluster has %d users, %d were requested' % (cl.num_users, sum(r[1] for r in reqs))
+        # every user against the request it belongs to (requests of one cell are served in order)
+        taken = {}
+        for cid, num, col, rat in reqs:
+            c = cl.get_cell_by_id(cid)
+            cref = ref_vertices(cell_spec(ctype, R, rot, complex(c.pos)))
+            k0 = taken.get(cid, 0)
+            for us in c.users[k0:k0 + num]:
+                r = check_user(cell, us, cref, complex(c.pos), float(c.radius), rat, col, c.id, sc)
+                if r is not None:
+                    return cls(r[0]), r[1]
+            taken[cid] = k0 + num
+        for a, b in zip(cl, tw):
+            pa, pb = [complex(u.pos) for u in a.users], [complex(u.pos) for u in b.users]
+            if len(pa) != len(pb) or any(abs(x - y) > 1e-12 * sc for x, y in zip(pa, pb)):
+                return cls('cluster-path-differs-from-cell-path'), (
+                    'cell %s: users %s through Cluster.add_random_users, %s through the cell\'s add_random_users with the '
+                    'same arguments and draws' % (a.id, pa[:2], pb[:2]))
+        return None
+    if entry == 'Cluster.add_border_users':
+        cl, tw = cluster(), cluster()
+        ids = case['ids'] if case['ids_form'] == 'int' else as_form(case['ids'], case['ids_form'])
+        idl = [case['ids']] if case['ids_form'] == 'int' else list(case['ids'])
+        angles, ratios, colors = case['angles'], case['ratios'], case['colors']
+        if colors is None and not case.get('explicit_defaults'):
+            cl.add_border_users(ids, angles, ratios)
+        else:
+            cl.add_border_users(ids, angles, ratios, colors)
+        # what the call stands for: per cell the angle(s), the ratio and the colour
+        k = len(idl)
+        if case['ids_form'] == 'int':
+            per = [(idl[0], angles, ratios, colors)]
+        else:
+            ang_l = angles if isinstance(angles, list) else [angles] * k
+            rat_l = ratios if isinstance(ratios, list) else [ratios] * k
+            col_l = colors if isinstance(colors, list) else [colors] * k
+            per = list(zip(idl, ang_l, rat_l, col_l))
+        for cid, ang, rat, col in per:
+            tw.get_cell_by_id(cid).add_border_user(ang, rat, col)
+        for cid, ang, rat, col in per:
+            c = cl.get_cell_by_id(cid)
+            centre = complex(c.pos)
+            cref = ref_vertices(cell_spec(ctype, R, rot, centre))
+            al = ang if isinstance(ang, list) else [ang]
+            rl = rat if isinstance(rat, list) else [rat] * len(al)
+            cols = col if isinstance(col, list) else [col] * len(al)
+            want = sum(len(a_ if isinstance(a_, list) else [a_]) for i_, a_, _, _ in per if i_ == cid)
+            if c.num_users != want:
+                return cls('count'), 'cell %s has %d border users, %d were requested' % (cid, c.num_users, want)
+            k0 = sum(len(a_ if isinstance(a_, list) else [a_]) for i_, a_, _, _ in per[:per.index((cid, ang, rat, col))] if i_ == cid)
+            for j, (a_, r_, co_) in enumerate(zip(al, rl, cols)):
+                us = c.users[k0 + j]
+                p = complex(us.pos)
+                r_eff = 1.0 if r_ is None else float(r_)
+                b = centre + (p - centre) / r_eff
+                rel = (b - centre) * cis(-a_)
+                if not (rel.real > 0 and abs(rel.imag) <= TOL * sc) or boundary_dist(cref, b) > 2e-9 * sc:
+                    return cls('border-user-misplaced'), ('cell %s angle %r ratio %r: user at %r is not at ratio x border point '
+                                                          'in that direction' % (cid, a_, r_, p))
+                want_c = DEFAULT_COLOR if co_ is None else co_
+                if us.marker_color != want_c:
+                    return cls('colour'), 'border user of cell %s has colour %r, requested %r' % (cid, us.marker_color, want_c)
+        for a, b in zip(cl, tw):
+            pa, pb = [complex(u.pos) for u in a.users], [complex(u.pos) for u in b.users]
+            if len(pa) != len(pb) or any(abs(x - y) > 1e-12 * sc for x, y in zip(pa, pb)):
+                return cls('cluster-path-differs-from-cell-path'), 'cell %s: %s through the cluster, %s through the cell' % (a.id, pa[:2], pb[:2])
+        return None
+    if entry == 'Cluster.delete_all_users':
+        cl = cluster()
+        with random_source(case):
+            cl.add_random_users(None, 2)
+        ids = case['ids']
+        arg = None if case['ids_form'] == 'none' else (ids if case['ids_form'] == 'int' else as_form(ids, case['ids_form']))
+        if case['ids_form'] == 'none' and not case.get('explicit_defaults'):
+            cl.delete_all_users()
+        else:
+            cl.delete_all_users(arg)
+        gone = set(range(1, n + 1)) if case['ids_form'] == 'none' else ({ids} if case['ids_form'] == 'int' else set(ids))
+        for c in cl:
+            want = 0 if c.id in gone else 2
+            if c.num_users != want:
+                return cls('count'), 'after delete_all_users(%r) cell %s has %d users, expected %d' % (arg, c.id, c.num_users, want)
+        return None
+    # cell-level entry points
+    kind = CELL_KIND[ctype]
+    spec = cell_spec(ctype, R, rot, pos)
+    c = make_shape(spec)
+    cref = ref_vertices(spec)
+    num, col, rat = case['nums'], case['colors'], case['ratios']
+    if entry in ('Cell.add_random_users', 'Cell.add_random_user'):
+        with random_source(case):
+            if entry == 'Cell.add_random_user':
+                num = 1
+                if case.get('keywords'):
+                    c.add_random_user(user_color=col, min_dist_ratio=rat)
+                else:
+                    c.add_random_user(col, rat)
+            elif case.get('keywords'):
+                c.add_random_users(num_users=num, user_color=col, min_dist_ratio=rat)
+            else:
+                c.add_random_users(num, col, rat)
+        if c.num_users != num:
+            return cls('count'), '%d users, %d requested' % (c.num_users, num)
+        for us in c.users:
+            r = check_user(cell, us, cref, pos, float(c.radius), rat, col, c.id, sc)
+            if r is not None:
+                return cls(r[0]), r[1]
+        return None
+    if entry == 'Cell3Sec.add_random_users_in_sector':
+        k = case['sector']
+        with random_source(case):
+            if num == 1 and case.get('single'):
+                c.add_random_user_in_sector(k + 1, col, rat)
+            else:
+                c.add_random_users_in_sector(num, k + 1, col, rat)
+        if c.num_users != num:
+            return cls('count'), '%d users, %d requested' % (c.num_users, num)
+        sref = ref_vertices({'kind': 'sector', 'R': R, 'rot': rot, 'pos': c2(pos), 'k': k})
+        centre = pos + R / math.sqrt(3) * cis(rot + SEC_ANGLE[k])
+        for us in c.users:
+            r = check_user(cell, us, sref, centre, R / math.sqrt(3), rat, col, None, sc)
+            if r is not None:
+                return cls(r[0] + ':sector'), r[1]
+        return None
+    if entry == 'Cell.add_border_user':
+        angles = case['angles']
+        c.add_border_user(angles, rat, col) if col is not None or case.get('explicit_defaults') else c.add_border_user(angles, rat)
+        al = angles if isinstance(angles, list) else [angles]
+        rl = rat if isinstance(rat, list) else [rat] * len(al)
+        cols = col if isinstance(col, list) else [col] * len(al)
+        if c.num_users != len(al):
+            return cls('count'), '%d users for %d angles' % (c.num_users, len(al))
+        for us, a_, r_, co_ in zip(c.users, al, rl, cols):
+            p = complex(us.pos)
+            r_eff = 1.0 if r_ is None else float(r_)
+            b = pos + (p - pos) / r_eff
+            rel = (b - pos) * cis(-a_)
+            if not (rel.real > 0 and abs(rel.imag) <= TOL * sc) or boundary_dist(cref, b) > 2e-9 * sc:
+                return cls('border-user-misplaced'), 'angle %r ratio %r: user at %r' % (a_, r_, p)
+            if us.marker_color != (DEFAULT_COLOR if co_ is None else co_):
+                return cls('colour'), 'border user has colour %r, requested %r' % (us.marker_color, co_)
+        return None
+    raise KeyError(entry)
+
+
+ORACLES['user_placement'] = o_placement
+
+
+def gen_placement_case(rng, entry=None, ids_form=None, per_cell=None):
+    """per_cell: set of argument names given as per-cell lists"""
+    entry = entry or rng.choice(['Cluster.add_random_users'] * 4 + ['Cluster.add_border_users'] * 2 +
+                                ['Cell.add_random_users', 'Cell.add_random_user', 'Cell3Sec.add_random_users_in_sector',
+                                 'Cell.add_border_user', 'Cluster.delete_all_users'])
+    ctype = '3sec' if entry.startswith('Cell3Sec') else rng.choice(['simple', '3sec', 'square'])
+    n = rng.choice([1, 4, 9]) if ctype == 'square' else rng.choice([1, 3, 7, 19])
+    k_ = rng.choice(SCALE_EXPS) if rng.chance(0.15) else 0
+    f = 10.0 ** k_
+    p_ = gen_pos(rng)
+    case = {'entry': entry, 'type': ctype, 'n': n, 'R': gen_radius(rng) * f, 'rot': gen_rot(rng), 'pos': [p_[0] * f, p_[1] * f]}
+    maxr = 0.45 if ctype == 'square' else 0.7      # ratios for which rejection sampling still accepts often enough
+
+    def ratio():
+        return rng.choice([0.0, 0.2, 0.4, maxr, round(rng.uniform(0.05, maxr), 3)])
+
+    def color():
+        return rng.choice(COLORS)
+
+    if entry.startswith('Cluster.'):
+        form = ids_form or rng.choice(['int', 'list', 'list', 'tuple', 'array', 'range', 'none'] if entry != 'Cluster.add_border_users'
+                                      else ['int', 'list', 'list', 'tuple', 'array'])
+        if form == 'int':
+            ids = rng.randint(1, n)
+            k = 1
+        elif form == 'none':
+            ids, k = None, n
+        elif form == 'range':
+            a = rng.randint(1, n)
+            b = rng.randint(a, n)
+            ids, k = list(range(a, b + 1)), b - a + 1
+        else:
+            k = rng.randint(1, min(n, 5))
+            ids = [rng.randint(1, n) for _ in range(k)]       # repeated ids are allowed
+        case.update(ids=ids, ids_form=form)
+        pc = per_cell if per_cell is not None else {a for a in ('nums', 'colors', 'ratios') if rng.chance(0.4)}
+        if form == 'int':
+            pc = set()
+        if entry == 'Cluster.add_random_users':
+            case['nums'] = [rng.randint(0, 3) for _ in range(k)] if 'nums' in pc else rng.randint(0, 3)
+            case['colors'] = [color() for _ in range(k)] if 'colors' in pc else rng.choice([None, None, color()])
+            case['ratios'] = [ratio() for _ in range(k)] if 'ratios' in pc else ratio()
+            case['keywords'] = rng.chance(0.2)
+            case['explicit_defaults'] = rng.chance(0.3)
+        elif entry == 'Cluster.add_border_users':
+            def ang():
+                return float(rng.randint(-24, 24) * 15 + rng.choice([0, 7]))
+
+            def bratio():
+                return rng.choice([1.0, 0.5, 0.25, 0.9, round(rng.uniform(0.05, 1.0), 3)])
+            if form == 'int':
+                many = rng.chance(0.5)
+                case['angles'] = [ang() for _ in range(rng.randint(1, 3))] if many else ang()
+                case['ratios'] = [bratio() for _ in case['angles']] if many and rng.chance(0.5) else bratio()
+                case['colors'] = rng.choice([None, color()])
+            else:
+                nested = rng.chance(0.3)
+                if nested:
+                    case['angles'] = [[ang() for _ in range(rng.randint(1, 3))] for _ in range(k)]
+                else:
+                    case['angles'] = [ang() for _ in range(k)] if rng.chance(0.6) else ang()
+                case['ratios'] = [bratio() for _ in range(k)] if 'ratios' in pc else bratio()
+                case['colors'] = [color() for _ in range(k)] if 'colors' in pc else rng.choice([None, color()])
+            case['nums'] = 0
+            case['explicit_defaults'] = rng.chance(0.3)
+        else:
+            case.update(nums=2, colors=None, ratios=0.0, explicit_defaults=rng.chance(0.5))
+    else:
+        case.update(ids=None, ids_form='-', nums=rng.randint(0, 4), colors=rng.choice([None, color()]), ratios=ratio(),
+                    keywords=rng.chance(0.3))
+        if entry == 'Cell3Sec.add_random_users_in_sector':
+            case['sector'] = rng.below(3)
+            case['single'] = rng.chance(0.3)
+            if case['single']:
+                case['nums'] = 1
+        if entry == 'Cell.add_border_user':
+            m = rng.randint(1, 4)
+            many = rng.chance(0.7)
+            case['angles'] = [float(rng.randint(-24, 24) * 15) for _ in range(m)] if many else float(rng.randint(-24, 24) * 15)
+            case['ratios'] = ([rng.choice([1.0, 0.5, 0.25]) for _ in range(m)] if many and rng.chance(0.5) else rng.choice([1.0, 0.5, 0.9]))
+            case['colors'] = ([color() for _ in range(m)] if many and rng.chance(0.5) else rng.choice([None, color()]))
+            case['explicit_defaults'] = rng.chance(0.3)
+    if rng.chance(0.5):
+        case['draws'] = [rng.uniform() for _ in range(1600)]
+    else:
+        case['draws'] = None
+        case['npseed'] = rng.below(2 ** 31)
+    return case
+
+
+FIXED_PLACEMENTS = [('Cluster.add_random_users', f, pc) for f in ('int', 'list', 'tuple', 'array', 'range', 'none')
+                    for pc in ([], ['ratios'], ['nums', 'colors', 'ratios'])] + \
+                   [('Cluster.add_border_users', f, pc) for f in ('int', 'list', 'array') for pc in ([], ['ratios', 'colors'])] + \
+                   [(e, None, None) for e in ('Cell.add_random_users', 'Cell.add_random_user', 'Cell3Sec.add_random_users_in_sector',
+                                              'Cell.add_border_user', 'Cluster.delete_all_users')]
+
+
+def force_positive_ratio(case, rng):
+    """make sure a minimum distance is actually requested (and users are placed)"""
+    if case['entry'] not in ('Cluster.add_random_users', 'Cell.add_random_users', 'Cell.add_random_user',
+                             'Cell3Sec.add_random_users_in_sector'):
+        return case
+    hi = 0.45 if case['type'] == 'square' else 0.7
+    if isinstance(case['ratios'], list):      # per-cell ratios that differ from cell to cell, the first one is 0
+        case['ratios'] = [0.0 if j % 2 == 0 else hi for j in range(len(case['ratios']))]
+    else:
+        case['ratios'] = hi
+    if isinstance(case['nums'], list):
+        case['nums'] = [max(2, v) for v in case['nums']]
+    elif not case.get('single'):
+        case['nums'] = max(3, case['nums'])
+    return case
+
+
+def placement_oracles(ctx, n):
+    for entry, form, pc in FIXED_PLACEMENTS:
+        for _ in range(50):
+            case = force_positive_ratio(gen_placement_case(ctx.rng, entry, form, set(pc) if pc is not None else None), ctx.rng)
+            if not pc or not isinstance(case.get('ratios'), list) or len(case['ratios']) >= 2:
+                break
+        run_oracle(ctx, 'user_placement', case, key=('place-fixed', entry, form, repr(pc)))
+        ctx.branch('placement:' + entry)
+        if form:
+            ctx.branch('placement:ids=' + form)
+        if pc:
+            ctx.branch('placement:per-cell-arguments')
+    for _ in range(n):
+        case = gen_placement_case(ctx.rng)
+        run_oracle(ctx, 'user_placement', case, key=('place', repr({k: v for k, v in case.items() if k != 'draws'})))
+        ctx.branch('placement:' + case['entry'])
+
+
+def simulate_placement(case, cells_geo):
+    """first-principles replay of the rejection sampling of Cluster.add_random_users on scripted draws; returns
+    (list of (cell index, position), any candidate closer than 1e-9 to a decision boundary?)"""
+    draws = case['draws']
+    i = 0
+    out, tie = [], False
+    for cid, num, _, rat in placement_requests(case, case['n']):
+        centre, radius, cref, sc = cells_geo[cid - 1]
+        for _ in range(num):
+            while True:
+                if i + 2 > len(draws):
+                    return None, tie
+                c = centre + complex(2 * (draws[i] - 0.5) * radius, 2 * (draws[i + 1] - 0.5) * radius)
+                i += 2
+                bd = boundary_dist(cref, c)
+                if bd < 1e-9 * sc or (rat > 0 and abs(abs(c - centre) - rat * radius) < 1e-9 * sc):
+                    tie = True
+                if winding_inside(cref, c) and not abs(c - centre) < rat * radius:
+                    out.append((cid - 1, c))
+                    break
+    return out, tie
+
+
+def corr_placement(ctx, drv, ncases):
+    """Cluster.add_random_users on scripted draws against the model's `clusterAddRandomUsers`"""
+    shapes, cell, _ = _mods()
+    todo = [force_positive_ratio(gen_placement_case(ctx.rng, 'Cluster.add_random_users', f, set(pc)), ctx.rng)
+            for f in ('int', 'list', 'none', 'array') for pc in ([], ['ratios'], ['nums', 'ratios'])]
+    todo += [gen_placement_case(ctx.rng, 'Cluster.add_random_users') for _ in range(ncases)]
+    for case in todo:
+        case['draws'] = case['draws'] or [ctx.rng.uniform() for _ in range(1600)]
+        ctype, n, R, rot = case['type'], case['n'], case['R'], case['rot']
+        pos = cx(case['pos'])
+        sc = 6 * R + 1e-3 * abs(pos)
+        key = ('cplace', repr({k: v for k, v in case.items() if k != 'draws'}), case['draws'][0])
+        cl = cell.Cluster(cell_radius=R, num_cells=n, pos=pos, cell_type=ctype, rotation=rot)
+        geo = [(complex(c.pos), float(c.radius), ref_vertices(cell_spec(ctype, R, rot, complex(c.pos))), sc) for c in cl]
+        sim, tie = simulate_placement(case, geo)
+        if tie or sim is None:
+            ctx.branch('placement-corr:near-tie-or-exhausted-skipped')
+            continue
+        ids = None if case['ids_form'] == 'none' else (case['ids'] if case['ids_form'] == 'int' else as_form(case['ids'], case['ids_form']))
+        try:
+            with scripted_random(case['draws']):
+                cl.add_random_users(ids, case['nums'], case['colors'], case['ratios'])
+            impl = sorted([(c.id - 1, complex(u.pos)) for c in cl for u in c.users], key=lambda t: t[0])
+        except Exception as e:
+            ctx.corr('Cluster.add_random_users', case, 'exception:' + type(e).__name__, 'placed', key=key)
+            continue
+        f = core.f2s
+        idtok = '-' if case['ids_form'] == 'none' else ','.join(str(i) for i in ([case['ids']] if case['ids_form'] == 'int' else case['ids']))
+        if case['ids_form'] == 'int':       # the scalar call is one request
+            numtok, rattok = 's:%d' % case['nums'], 's:' + f(case['ratios'])
+        else:
+            numtok = ('l:' + ','.join(str(v) for v in case['nums'])) if isinstance(case['nums'], list) else 's:%d' % case['nums']
+            rattok = ('l:' + ','.join(f(v) for v in case['ratios'])) if isinstance(case['ratios'], list) else 's:' + f(case['ratios'])
+        line = 'clusterusers %s %d %s %s %s %s %s %s %s %s' % (ctype, n, f(R), f(rot), f(pos.real), f(pos.imag), idtok, numtok,
+                                                            rattok, ','.join(f(d) for d in case['draws']))
+        m = drv.ask([line])[0]
+        if m in ('none', 'bad-op') or m.startswith('error'):
+            ctx.corr('Cluster.add_random_users', case, 'placed', m, key=key)
+            continue
+        model = [] if m == '-' else [(int(t.split(':')[0]), fpts(t.split(':')[1])[0]) for t in m.split(';')]
+        model.sort(key=lambda t: t[0])
+        ok = len(model) == len(impl) and all(a[0] == b[0] and abs(a[1] - b[1]) <= TOL * sc for a, b in zip(impl, model))
+        ctx.corr('Cluster.add_random_users', case, 'match' if ok else repr(impl[:3]), 'match' if ok else repr(model[:3]), key=key)
+        ctx.branch('placement-corr:ids=' + case['ids_form'])
+        if isinstance(case['ratios'], list):
+            ctx.branch('placement-corr:per-cell-ratio')
+
+
+def guarded(ctx, name, fn, *args):
+    """run one correspondence group; an exception of the LIBRARY in there is not an infrastructure failure: the
+    correspondence is recorded as broken and the oracles / the search produce the concrete failing input"""
+    try:
+        fn(ctx, *args)
+    except core.Infra:
+        raise
+    except Exception as e:
+        import traceback
+        ctx.tie_broken('correspondence', name, 'exception while comparing with the model: %s: %s\n%s' % (
+            type(e).__name__, e, traceback.format_exc()[-1500:]))
+        ctx.branch('correspondence-exception:' + name)
+
+
+
 def correspondence(ctx, nshapes, nq, nusers, cluster_cases, ndist, npp, nhist):
     drv = core.Driver(DRIVER)
-    corr_corpus(ctx, drv)
-    corr_history(ctx, drv, nhist)
-    corr_robust(ctx, drv, max(20, nhist // 4))
-    corr_shapes(ctx, drv, ['hex', 'hexshape', 'sec3', 'rect', 'rect', 'square', 'circle', 'wrap', 'sector'], nshapes, nq)
-    corr_users(ctx, drv, nusers, 40)
-    corr_clusters(ctx, drv, cluster_cases)
-    corr_distm(ctx, drv, ndist)
-    corr_pp(ctx, drv, npp)
+    guarded(ctx, 'corpus', corr_corpus, drv)
+    guarded(ctx, 'history', corr_history, drv, nhist)
+    guarded(ctx, 'robust', corr_robust, drv, max(20, nhist // 4))
+    guarded(ctx, 'placement', corr_placement, drv, max(20, nhist // 4))
+    guarded(ctx, 'shapes', corr_shapes, drv, ['hex', 'hexshape', 'sec3', 'rect', 'rect', 'square', 'circle', 'wrap', 'sector'],
+            nshapes, nq)
+    guarded(ctx, 'users', corr_users, drv, nusers, 40)
+    guarded(ctx, 'clusters', corr_clusters, drv, cluster_cases)
+    guarded(ctx, 'distm', corr_distm, drv, ndist)
+    guarded(ctx, 'pp', corr_pp, drv, npp)
 
 
 # ------------------------------------------------------------------ oracle runs
@@ -2891,6 +3389,7 @@ def oracles(ctx, nshapes, nq, nusers, cluster_cases, ndist, npp, nhist):
         case = gen_history(ctx.rng)
         run_oracle(ctx, 'setter_history', case, key=('hist', repr(case['init']), repr(case['ops'])))
     robust_oracles(ctx, max(30, nhist // 2))
+    placement_oracles(ctx, max(40, nhist // 2))
     for _ in range(3):
         run_oracle(ctx, 'CellWrap.readonly', {'wrap': gen_pos(ctx.rng), 'init': gen_spec(ctx.rng, ['hex', 'sec3', 'square'])})
     for _ in range(nshapes):
@@ -3006,7 +3505,13 @@ def check(ctx):
                              'R4:rejected:border_ratio', 'R4:rejected:sector_index', 'R4:rejected:wrap_radius',
                              'R5:rotation-multiple-of-90', 'R5:ratio-0-1-None', 'R5:size-boundary', 'R5:zero-counts',
                              'R5:unit-cell-at-origin', 'R6:scale:1e-12', 'R6:scale:1e+12', 'R6:scaled-input',
-                             'R7:move-helper', 'R7:shared-class-cache', 'R7:shared-wrapped-cell']
+                             'R7:move-helper', 'R7:shared-class-cache', 'R7:shared-wrapped-cell',
+                             'placement:Cluster.add_random_users', 'placement:Cluster.add_border_users',
+                             'placement:Cell.add_random_users', 'placement:Cell3Sec.add_random_users_in_sector',
+                             'placement:Cell.add_border_user', 'placement:Cluster.delete_all_users',
+                             'placement:ids=int', 'placement:ids=list', 'placement:ids=none', 'placement:ids=array',
+                             'placement:per-cell-arguments', 'placement-corr:ids=list', 'placement-corr:ids=none',
+                             'placement-corr:per-cell-ratio']
     cases = cluster_cases_for(ctx, nrot)
     try:
         correspondence(ctx, nshapes, nq, nusers, cases, ndist, npp, nhist)
